@@ -231,7 +231,8 @@ def gen_request(rng, v, rid, profile):
         if rng.random() < profile.get("set_np", 0.1):
             # a plain `set numprocesses`, boundary values included (negative, zero, above a singleton's limit, not an integer)
             opts = {"numprocesses": rng.choice([-2, -1, 0, 0, 1, 2, 3, 5, "3", 2.5, True])}
-        if rng.random() < profile.get("set_hooks", 0.12):
+        # (only in profiles whose oracles follow hooks installed at run time: C14, C11, C06, C03, and the profile-less bulk comparison)
+        if rng.random() < profile.get("set_hooks", 0.0):
             # a hook installed (or replaced) at run time: "dotted.name[,flag]"; by key `hooks.<name>` or through the `hooks` dict
             hn = rng.choice(HOOK_NAMES + ["before_start", "before_spawn", "after_spawn", "bogus_hook"])
             outs = "".join(rng.choice("ttfr") for _ in range(rng.choice([1, 1, 2, 3])))
@@ -685,7 +686,7 @@ RECIPES = {"options_observe": recipe_options_observe, "sequential_reload_death":
 
 def gen_scenario(rng, nops=None, profile=None):
     """returns (scenario, impl steps) — the implementation is run while generating"""
-    profile = profile or {}
+    profile = {"set_hooks": 0.12} if profile is None else profile
     scripted = []
     sc = None
     for name, p in (profile.get("recipes") or {}).items():
